@@ -53,6 +53,33 @@ type prop struct {
 	Conflicts     []string `json:"conflicts"`
 	RequiredIf    []string `json:"required_if"`
 	RequiredIfNot []string `json:"required_if_not"`
+	// which parts of the property's display exist: none | name | desc | icon | all
+	Display string `json:"display"`
+}
+
+func (p prop) display() string {
+	if p.Display == "" {
+		return "none"
+	}
+	return p.Display
+}
+
+// displayFor: the display value of a shape; none is the nil interface
+func displayFor(shape, name string) (schema.Display, error) {
+	n, d, i := "Property "+name, "Documentation of "+name, "<svg/>"
+	switch shape {
+	case "none":
+		return nil, nil
+	case "name":
+		return schema.NewDisplayValue(&n, nil, nil), nil
+	case "desc":
+		return schema.NewDisplayValue(nil, &d, nil), nil
+	case "icon":
+		return schema.NewDisplayValue(nil, nil, &i), nil
+	case "all":
+		return schema.NewDisplayValue(&n, &d, &i), nil
+	}
+	return nil, fmt.Errorf("unknown display shape %q", shape)
 }
 
 func names(l []string) []string {
@@ -134,6 +161,7 @@ func (a *ast) MarshalJSON() ([]byte, error) {
 		sort.Slice(ps, func(i, j int) bool { return ps[i].Name < ps[j].Name })
 		for i := range ps {
 			ps[i].Conflicts, ps[i].RequiredIf, ps[i].RequiredIfNot = names(ps[i].Conflicts), names(ps[i].RequiredIf), names(ps[i].RequiredIfNot)
+			ps[i].Display = ps[i].display()
 		}
 		m["id"], m["props"], m["id_unenforced"], m["impl"] = a.ID, ps, a.IDUnenforced, a.impl()
 	case "ref":
@@ -160,6 +188,40 @@ type caseT struct {
 	How   string   `json:"how,omitempty"`
 }
 
+// stripDisplays: the AST with every property's display cleared
+func stripDisplays(a *ast) (*ast, bool) {
+	b, _ := json.Marshal(a)
+	var c ast
+	if err := json.Unmarshal(b, &c); err != nil {
+		return nil, false
+	}
+	found := false
+	var walk func(n *ast)
+	walk = func(n *ast) {
+		if n == nil {
+			return
+		}
+		walk(n.Items)
+		walk(n.Keys)
+		walk(n.Vals)
+		for i := range n.Props {
+			if n.Props[i].display() != "none" {
+				found = true
+				n.Props[i].Display = "none"
+			}
+			walk(n.Props[i].Type)
+		}
+		for _, o := range n.Objects {
+			walk(o)
+		}
+		for _, m := range n.Members {
+			walk(m.Obj)
+		}
+	}
+	walk(&c)
+	return &c, found
+}
+
 type resT struct {
 	Evals      int    `json:"evals"`
 	Nil        int    `json:"nil"`
@@ -169,6 +231,7 @@ type resT struct {
 	Msg        string `json:"msg,omitempty"`
 	FirstErr   string `json:"first_err,omitempty"`
 	Skip       string `json:"skip,omitempty"`       // the rebuilt mode is not applicable (not describable)
+	DisplayDep string `json:"display_dep,omitempty"` // the verdict differs from the one with every property display cleared
 	Divergence string `json:"divergence,omitempty"` // panic | nondeterministic | accepts | rejects
 	BindError  string `json:"bind_error,omitempty"`
 	HarnessErr string `json:"harness_error,omitempty"`
@@ -411,8 +474,14 @@ func (a *ast) spelled(n int64) (string, error) {
 }
 func mkey(n int64) string  { return fmt.Sprintf("k%d", n) }
 
+// display of an enum value: named = it carries a display name; an unnamed value has no display value at all
+// (odd n) or one with a description only (even n)
 func display(named bool, n int64) *schema.DisplayValue {
 	if !named {
+		if n%2 == 0 {
+			d := fmt.Sprintf("Documentation of value %d", n)
+			return schema.NewDisplayValue(nil, &d, nil)
+		}
 		return nil
 	}
 	s := fmt.Sprintf("Value %d", n)
@@ -628,7 +697,11 @@ func buildProps(a *ast) (map[string]*schema.PropertySchema, error) {
 			}
 			def = &d
 		}
-		ps[p.Name] = schema.NewPropertySchema(t, nil, p.Required, names(p.RequiredIf), names(p.RequiredIfNot),
+		disp, err := displayFor(p.display(), p.Name)
+		if err != nil {
+			return nil, err
+		}
+		ps[p.Name] = schema.NewPropertySchema(t, disp, p.Required, names(p.RequiredIf), names(p.RequiredIfNot),
 			names(p.Conflicts), def, nil)
 		if p.Disabled {
 			ps[p.Name] = ps[p.Name].Disable(disabledReason)
@@ -659,6 +732,13 @@ func checkFlags(a *ast, o schema.Object) error {
 		if !sameNames(built.Conflicts(), p.Conflicts) || !sameNames(built.RequiredIf(), p.RequiredIf) ||
 			!sameNames(built.RequiredIfNot(), p.RequiredIfNot) {
 			return bindErr(fmt.Sprintf("property %s.%s: the rules between fields of the built property differ from the AST", a.ID, p.Name))
+		}
+		sh := p.display()
+		bd := built.Display()
+		if (bd == nil) != (sh == "none") ||
+			bd != nil && ((bd.Name() != nil) != (sh == "name" || sh == "all") || (bd.Description() != nil) != (sh == "desc" || sh == "all") ||
+				(bd.Icon() != nil) != (sh == "icon" || sh == "all")) {
+			return bindErr(fmt.Sprintf("property %s.%s: display shape %s in the AST, the built property's display differs", a.ID, p.Name, sh))
 		}
 		if built.Disabled != p.Disabled || built.Required() != p.Required {
 			return bindErr(fmt.Sprintf("property %s.%s: disabled=%v required=%v in the AST, the built property says %v / %v",
@@ -855,6 +935,32 @@ func handle(raw json.RawMessage) any {
 		r.Divergence = "accepts"
 	case c.Exp == "accept" && r.Err > 0:
 		r.Divergence = "rejects"
+	}
+	// documentation blindness: the same pair with every property display cleared gets the same verdict
+	if r.Divergence == "" && (c.Mode == "direct" || c.Mode == "self") {
+		a0, fa := stripDisplays(c.A)
+		b0, fb := stripDisplays(c.B)
+		if (fa || fb) && a0 != nil && b0 != nil {
+			var err0 error
+			var A0, B0 schema.Type
+			pi := sup.Guard(func() {
+				var e error
+				if A0, e = build(a0); e != nil {
+					return
+				}
+				B0 = A0
+				if c.Mode != "self" {
+					if B0, e = build(b0); e != nil {
+						A0 = nil
+						return
+					}
+				}
+				err0 = A0.ValidateCompatibility(B0)
+			})
+			if pi == nil && A0 != nil && (err0 == nil) != (r.Nil > 0) {
+				r.DisplayDep = fmt.Sprintf("verdict nil=%v with the displays, nil=%v without", r.Nil > 0, err0 == nil)
+			}
+		}
 	}
 	return r
 }
